@@ -85,7 +85,7 @@ def headers_x(ck, g, tier):
         # counterparts
         cps = []
         for cpn in r.sample(["A", "B"], r.choice([1, 2])):
-            form = r.choice(["plain", "same_args", "own_lt", "own_lt_twice", "two_own_lts", "ty_only", "shared_then_own", "own_between_shared"])
+            form = r.choice(["plain", "same_args", "own_lt", "own_lt_twice", "two_own_lts", "ty_only", "shared_then_own", "own_between_shared", "static_lt"])
             args, cplts = [], []
             if form == "same_args":
                 args = list(names)
@@ -98,6 +98,11 @@ def headers_x(ck, g, tier):
                 args, cplts = ["'x", "'y"] + lts, ["'x", "'y"] + lts
             elif form == "ty_only":
                 args = [t["name"] for t in tps]
+            elif form == "static_lt":
+                # 'static is not a parameter: it is neither declared on the impl nor a lifetime the reference has to outlive
+                args, cplts = ["'static"] + (["'x"] if g.chance(0.4) else []) + [t["name"] for t in tps], []
+                if "'x" in args:
+                    cplts = ["'x"]
             elif form == "shared_then_own":
                 # lifetimes the type has itself first, a counterpart-only one after them
                 args, cplts = lts + ["'x"] + ([t["name"] for t in tps] if g.chance(0.5) else []), lts + ["'x"]
@@ -161,6 +166,8 @@ def headers_x(ck, g, tier):
             cp = next((c for _, c, f in m["plan"] if _nz(c["path"]).replace("::<", "<") == cptxt.replace("::<", "<")), None)
             if cp is None:
                 bad = "counterpart_not_recognised"
+            elif "'static" in pn or "'_" in pn:
+                bad = "reserved_lifetime_declared"
             elif len(pn) != len(set(pn)):
                 bad = "parameter_declared_twice"
             elif [x for x in pn if x in m["names"]] != m["names"]:
